@@ -137,8 +137,15 @@ def run(ck, F, prefix='C11'):
     ISA = ('isa', 'ipr::Qualified', ('param', 1))
     # induction hypothesis: the operand satisfies the invariant (the main variant of a Qualified operand is not Qualified);
     # paths on which the operand is nested deeper are the same code applied to the next layer and are not judged here
+    def inner_main(t):
+        # T.main_variant(), T.main_variant().main_variant(), ...
+        n = 0
+        while isinstance(t, tuple) and len(t) >= 4 and t[0] in ('vcall', 'call') and contracts.fn_simple(t[1]) in ('second', 'main_variant') and not t[3]:
+            t, n = t[2], n + 1
+        return n > 0 and t == ('param', 1)
+
     def deeper(st):
-        return any(val and isinstance(c, tuple) and len(c) == 3 and c[0] == 'isa' and c[1] == 'ipr::Qualified' and c[2] != ('param', 1)
+        return any(val and isinstance(c, tuple) and len(c) == 3 and c[0] == 'isa' and c[1] == 'ipr::Qualified' and inner_main(c[2])
                    for c, val in st.conds)
     rets_all = [(st, v) for st, v in rets_all if not deeper(st)]
     # a test of one implementation class (dynamic_cast<const impl::Qualified*>) recognises fewer operands than the interface
